@@ -19,6 +19,15 @@
 //!   PR <now>
 //!   RT                                       write, read back, compare (graph unchanged)
 //!   RL                                       write, read back, continue with the re-read graph
+//!   AA <via> <signed> <mid> <scid> <k1> <k2> <kb1> <kb2> <chain> <feat> <excess> <s1> <s2> <s3> <s4> <fid> <pre>
+//!        as A, but the UTXO lookup answers UtxoResult::Async(future <fid>); pre: `-` or a result
+//!        (o<sats> | w<sats> | c | t) the future already holds when it is handed over
+//!   AR <fid> <result>                        UtxoFuture::resolve
+//!   PL                                       get_and_clear_pending_msg_events (check_resolved_futures)
+//!   G <ver> <ts> <time|-1> <nn> (<k> <flag>)* <na> (<feat> <scid> <i1> <i2> <funding|-1>)*
+//!     <dc> <dm> <db> <dp> <dx> <nu> (<scid> <flags> <cltv> <hmin> <base> <prop> <hmax>)*
+//!        a rapid-gossip-sync snapshot, serialized here and applied with the real
+//!        RapidGossipSync::update_network_graph_no_std (absent update fields are given as -1)
 use std::collections::HashMap;
 use std::sync::Arc;
 use std::time::{SystemTime, UNIX_EPOCH};
@@ -45,7 +54,10 @@ use lightning::routing::gossip::{
 	ChannelUpdateInfo, NetworkGraph, NetworkUpdate, NodeAlias, NodeAnnouncementInfo, NodeId,
 	P2PGossipSync,
 };
-use lightning::routing::utxo::{UtxoLookup, UtxoLookupError, UtxoResult};
+use lightning::ln::msgs::{BaseMessageHandler, MessageSendEvent};
+use lightning::routing::utxo::{UtxoFuture, UtxoLookup, UtxoLookupError, UtxoResult};
+use lightning::util::ser::BigSize;
+use lightning_rapid_gossip_sync::{GraphSyncError, RapidGossipSync};
 use lightning::types::features::{ChannelFeatures, NodeFeatures};
 use lightning::util::logger::{Logger, Record};
 use lightning::util::ser::{ReadableArgs, Writeable};
@@ -62,6 +74,26 @@ struct FixedLookup(Result<TxOut, UtxoLookupError>);
 impl UtxoLookup for FixedLookup {
 	fn get_utxo(&self, _chain_hash: &ChainHash, _scid: u64, _n: Arc<Notifier>) -> UtxoResult {
 		UtxoResult::Sync(self.0.clone())
+	}
+}
+
+/// A lookup answering with a future (kept in `slot` so that the harness can resolve it later).
+struct AsyncLookup {
+	existing: Option<UtxoFuture>,
+	pre: Option<Result<TxOut, UtxoLookupError>>,
+	slot: std::sync::Mutex<Option<UtxoFuture>>,
+}
+impl UtxoLookup for AsyncLookup {
+	fn get_utxo(&self, _chain_hash: &ChainHash, _scid: u64, n: Arc<Notifier>) -> UtxoResult {
+		let fut = match &self.existing {
+			Some(f) => f.clone(),
+			None => UtxoFuture::new(n),
+		};
+		if let Some(r) = &self.pre {
+			fut.resolve(r.clone());
+		}
+		*self.slot.lock().unwrap() = Some(fut.clone());
+		UtxoResult::Async(fut)
 	}
 }
 
@@ -230,6 +262,8 @@ struct Session {
 	graph: Graph,
 	msgs: HashMap<Vec<u8>, i64>,
 	contents: HashMap<String, i64>,
+	/// futures handed out, with the right / wrong funding script of their announcement
+	futures: HashMap<i64, (UtxoFuture, ScriptBuf, ScriptBuf)>,
 }
 
 impl Session {
@@ -239,10 +273,13 @@ impl Session {
 			let (f, rgb, alias, addrs) = node_content(c);
 			contents.insert(content_key(&f, &rgb, &alias, &addrs), c);
 		}
+		// what a rapid-gossip-sync reminder announces for a node without announcement
+		contents.insert(content_key(&NodeFeatures::empty(), &[0, 0, 0], &NodeAlias([0u8; 32]), &[]), 64);
 		Session {
 			graph: NetworkGraph::new(Network::Testnet, Arc::new(NullLogger)),
 			msgs: HashMap::new(),
 			contents,
+			futures: HashMap::new(),
 		}
 	}
 
@@ -339,6 +376,56 @@ impl Session {
 	fn dump(&self, pool: &Pool) -> String {
 		self.dump_of(pool, &self.graph, true)
 	}
+
+	/// Number of stored full messages whose signatures do NOT verify (real secp256k1) under the keys
+	/// the graph attributes them to, or whose contents differ from the stored fields.
+	fn stored_bad(&self, pool: &Pool) -> usize {
+		let ro = self.graph.read_only();
+		let mut bad = 0;
+		for (scid, c) in ro.channels().unordered_iter() {
+			if let Some(m) = &c.announcement_message {
+				let d = digest_of(&m.contents);
+				let ok = m.contents.short_channel_id == *scid
+					&& m.contents.node_id_1 == c.node_one
+					&& m.contents.node_id_2 == c.node_two
+					&& pool.verifies(&d, &m.node_signature_1, &m.contents.node_id_1).1
+					&& pool.verifies(&d, &m.node_signature_2, &m.contents.node_id_2).1
+					&& pool.verifies(&d, &m.bitcoin_signature_1, &m.contents.bitcoin_key_1).1
+					&& pool.verifies(&d, &m.bitcoin_signature_2, &m.contents.bitcoin_key_2).1;
+				if !ok {
+					bad += 1;
+				}
+			}
+			for (dir, node, bit) in [(&c.one_to_two, &c.node_one, 0u8), (&c.two_to_one, &c.node_two, 1u8)] {
+				if let Some(u) = dir {
+					if let Some(m) = &u.last_update_message {
+						let d = digest_of(&m.contents);
+						let ok = m.contents.short_channel_id == *scid
+							&& m.contents.channel_flags & 1 == bit
+							&& m.contents.timestamp == u.last_update
+							&& m.contents.htlc_maximum_msat == u.htlc_maximum_msat
+							&& m.contents.htlc_minimum_msat == u.htlc_minimum_msat
+							&& m.contents.fee_base_msat == u.fees.base_msat
+							&& m.contents.fee_proportional_millionths == u.fees.proportional_millionths
+							&& m.contents.cltv_expiry_delta == u.cltv_expiry_delta
+							&& pool.verifies(&d, &m.signature, node).1;
+						if !ok {
+							bad += 1;
+						}
+					}
+				}
+			}
+		}
+		for (id, n) in ro.nodes().unordered_iter() {
+			if let Some(NodeAnnouncementInfo::Relayed(m)) = &n.announcement_info {
+				let d = digest_of(&m.contents);
+				if m.contents.node_id != *id || !pool.verifies(&d, &m.signature, id).1 {
+					bad += 1;
+				}
+			}
+		}
+		bad
+	}
 }
 
 fn now_secs() -> u64 {
@@ -369,7 +456,7 @@ fn main() {
 				let skew = now_secs() as i64 - t0;
 				(format!("session skew_ok={}", (skew.abs() < 600) as u8), String::new())
 			},
-			"A" => {
+			"A" | "AA" => {
 				let (via, signed, mid, scid) = (n(1) != 0, n(2) != 0, n(3), n(4) as u64);
 				let contents = UnsignedChannelAnnouncement {
 					features: ChannelFeatures::from_le_bytes(feat_bytes(n(10))),
@@ -390,9 +477,63 @@ fn main() {
 					contents: contents.clone(),
 				};
 				let mid = *s.msgs.entry(msg.encode()).or_insert(mid);
+				let mut return_pair: Option<(String, String)> = None;
 				let right = funding_script(&contents.bitcoin_key_1, &contents.bitcoin_key_2);
 				let wrong = funding_script(&contents.node_id_1, &contents.bitcoin_key_2);
-				let u = t[16];
+				let parse_res = |u: &str| -> Result<TxOut, UtxoLookupError> {
+					match &u[..1] {
+						"o" => Ok(TxOut { value: Amount::from_sat(u[1..].parse().unwrap()), script_pubkey: right.clone() }),
+						"w" => Ok(TxOut { value: Amount::from_sat(u[1..].parse().unwrap()), script_pubkey: wrong.clone() }),
+						"c" => Err(UtxoLookupError::UnknownChain),
+						_ => Err(UtxoLookupError::UnknownTx),
+					}
+				};
+				let sig_bits = {
+					let keys = [
+						(&msg.node_signature_1, &contents.node_id_1),
+						(&msg.node_signature_2, &contents.node_id_2),
+						(&msg.bitcoin_signature_1, &contents.bitcoin_key_1),
+						(&msg.bitcoin_signature_2, &contents.bitcoin_key_2),
+					];
+					let mut bits = String::new();
+					for (sig, id) in keys.iter() {
+						let (k, v) = pool.verifies(&d, sig, id);
+						bits.push_str(&format!("{}{}", k as u8, v as u8));
+					}
+					bits
+				};
+				if t[0] == "AA" {
+					let fid = n(16);
+					let pre = if t[17] == "-" { None } else { Some(parse_res(t[17])) };
+					let pre_ok = match &pre {
+						Some(Ok(o)) => (o.script_pubkey == right) as i8,
+						_ => -1,
+					};
+					let lookup = Some(AsyncLookup {
+						existing: s.futures.get(&fid).map(|f| f.0.clone()),
+						pre,
+						slot: std::sync::Mutex::new(None),
+					});
+					let r = if !signed {
+						s.graph.update_channel_from_unsigned_announcement(&contents, &lookup).map(|_| "ok".to_string())
+					} else if via {
+						let sync = P2PGossipSync::new(&s.graph, None::<FixedLookup>, Arc::new(NullLogger));
+						let _ = &sync;
+						P2PGossipSync::new(&s.graph, Some(lookup.as_ref().unwrap()), Arc::new(NullLogger))
+							.handle_channel_announcement(None, &msg)
+							.map(|b| format!("ok:{}", b))
+					} else {
+						s.graph.update_channel_from_announcement(&msg, &lookup).map(|_| "ok".to_string())
+					};
+					if let Some(f) = lookup.as_ref().unwrap().slot.lock().unwrap().take() {
+						s.futures.entry(fid).or_insert((f, right.clone(), wrong.clone()));
+					}
+					return_pair = Some((
+						r.unwrap_or_else(|e| res_err(&e)),
+						format!("sigs={} script_ok={} mid={}", sig_bits, pre_ok, mid),
+					));
+				}
+				let u = if t[0] == "AA" { "n" } else { t[16] };
 				let lookup: Option<FixedLookup> = match &u[..1] {
 					"n" => None,
 					"o" => Some(FixedLookup(Ok(TxOut {
@@ -410,27 +551,139 @@ fn main() {
 					Some(FixedLookup(Ok(o))) => (o.script_pubkey == right) as i8,
 					_ => -1,
 				};
-				let keys = [
-					(&msg.node_signature_1, &contents.node_id_1),
-					(&msg.node_signature_2, &contents.node_id_2),
-					(&msg.bitcoin_signature_1, &contents.bitcoin_key_1),
-					(&msg.bitcoin_signature_2, &contents.bitcoin_key_2),
-				];
-				let mut bits = String::new();
-				for (sig, id) in keys.iter() {
-					let (k, v) = pool.verifies(&d, sig, id);
-					bits.push_str(&format!("{}{}", k as u8, v as u8));
-				}
-				let r = if !signed {
-					s.graph.update_channel_from_unsigned_announcement(&contents, &lookup).map(|_| "ok".to_string())
-				} else if via {
-					P2PGossipSync::new(&s.graph, lookup, Arc::new(NullLogger))
-						.handle_channel_announcement(None, &msg)
-						.map(|b| format!("ok:{}", b))
+				let bits = sig_bits.clone();
+				if let Some(p) = return_pair {
+					p
 				} else {
-					s.graph.update_channel_from_announcement(&msg, &lookup).map(|_| "ok".to_string())
-				};
-				(r.unwrap_or_else(|e| res_err(&e)), format!("sigs={} script_ok={} mid={}", bits, script_ok, mid))
+					let r = if !signed {
+						s.graph.update_channel_from_unsigned_announcement(&contents, &lookup).map(|_| "ok".to_string())
+					} else if via {
+						P2PGossipSync::new(&s.graph, lookup, Arc::new(NullLogger))
+							.handle_channel_announcement(None, &msg)
+							.map(|b| format!("ok:{}", b))
+					} else {
+						s.graph.update_channel_from_announcement(&msg, &lookup).map(|_| "ok".to_string())
+					};
+					(r.unwrap_or_else(|e| res_err(&e)), format!("sigs={} script_ok={} mid={}", bits, script_ok, mid))
+				}
+			},
+			"AR" => {
+				let fid = n(1);
+				match s.futures.get(&fid) {
+					Some((f, right, wrong)) => {
+						let u = t[2];
+						let res = match &u[..1] {
+							"o" => Ok(TxOut { value: Amount::from_sat(u[1..].parse().unwrap()), script_pubkey: right.clone() }),
+							"w" => Ok(TxOut { value: Amount::from_sat(u[1..].parse().unwrap()), script_pubkey: wrong.clone() }),
+							"c" => Err(UtxoLookupError::UnknownChain),
+							_ => Err(UtxoLookupError::UnknownTx),
+						};
+						f.resolve(res);
+						("ok".to_string(), format!("script_ok={}", (&u[..1] == "o") as u8))
+					},
+					None => ("ok".to_string(), "nofuture=1".to_string()),
+				}
+			},
+			"PL" => {
+				let evs = P2PGossipSync::new(&s.graph, None::<FixedLookup>, Arc::new(NullLogger)).get_and_clear_pending_msg_events();
+				let mut ids = Vec::new();
+				for e in evs {
+					ids.push(match e {
+						MessageSendEvent::BroadcastChannelAnnouncement { msg, .. } => s.mid(&Some(msg)),
+						MessageSendEvent::BroadcastChannelUpdate { msg, .. } => s.mid(&Some(msg)),
+						MessageSendEvent::BroadcastNodeAnnouncement { msg } => s.mid(&Some(msg)),
+						_ => "?".to_string(),
+					});
+				}
+				(format!("ok:bcast({})", ids.join(",")), String::new())
+			},
+			"G" => {
+				let (ver, ts, time) = (n(1) as u8, n(2) as u32, n(3));
+				let mut b: Vec<u8> = vec![76, 68, 75, ver];
+				chain(0).write(&mut b).unwrap();
+				ts.write(&mut b).unwrap();
+				if ver == 2 {
+					0u8.write(&mut b).unwrap();
+				}
+				let mut i = 4;
+				let nn = n(i) as usize;
+				i += 1;
+				(nn as u32).write(&mut b).unwrap();
+				for _ in 0..nn {
+					let mut kb = *pool.id(n(i)).as_array();
+					if ver == 2 {
+						kb[0] |= n(i + 1) as u8;
+					}
+					b.extend_from_slice(&kb);
+					i += 2;
+				}
+				let na = n(i) as usize;
+				i += 1;
+				(na as u32).write(&mut b).unwrap();
+				let mut prev: u64 = 0;
+				for _ in 0..na {
+					ChannelFeatures::from_le_bytes(feat_bytes(n(i))).write(&mut b).unwrap();
+					let scid = n(i + 1) as u64;
+					BigSize(scid - prev).write(&mut b).unwrap();
+					prev = scid;
+					BigSize(n(i + 2) as u64).write(&mut b).unwrap();
+					let funding = n(i + 4);
+					if ver == 2 && funding >= 0 {
+						BigSize(n(i + 3) as u64 | (1 << 63)).write(&mut b).unwrap();
+						let mut extra = Vec::new();
+						BigSize(funding as u64).write(&mut extra).unwrap();
+						extra.write(&mut b).unwrap();
+					} else {
+						BigSize(n(i + 3) as u64).write(&mut b).unwrap();
+					}
+					i += 5;
+				}
+				let (dc, dm, db, dp, dx) = (n(i), n(i + 1), n(i + 2), n(i + 3), n(i + 4));
+				i += 5;
+				let nu = n(i) as usize;
+				i += 1;
+				(nu as u32).write(&mut b).unwrap();
+				if nu > 0 {
+					(dc as u16).write(&mut b).unwrap();
+					(dm as u64).write(&mut b).unwrap();
+					(db as u32).write(&mut b).unwrap();
+					(dp as u32).write(&mut b).unwrap();
+					(dx as u64).write(&mut b).unwrap();
+				}
+				prev = 0;
+				for _ in 0..nu {
+					let scid = n(i) as u64;
+					BigSize(scid - prev).write(&mut b).unwrap();
+					prev = scid;
+					let flags = n(i + 1) as u8;
+					flags.write(&mut b).unwrap();
+					if flags & 0x40 != 0 {
+						(n(i + 2) as u16).write(&mut b).unwrap();
+					}
+					if flags & 0x20 != 0 {
+						(n(i + 3) as u64).write(&mut b).unwrap();
+					}
+					if flags & 0x10 != 0 {
+						(n(i + 4) as u32).write(&mut b).unwrap();
+					}
+					if flags & 0x08 != 0 {
+						(n(i + 5) as u32).write(&mut b).unwrap();
+					}
+					if flags & 0x04 != 0 {
+						(n(i + 6) as u64).write(&mut b).unwrap();
+					}
+					i += 7;
+				}
+				let rgs = RapidGossipSync::new(&s.graph, Arc::new(NullLogger));
+				let r = rgs.update_network_graph_no_std(&b, if time < 0 { None } else { Some(time as u64) });
+				(
+					match r {
+						Ok(v) => format!("ok:rgs({})", v),
+						Err(GraphSyncError::LightningError(e)) => res_err(&e),
+						Err(GraphSyncError::DecodeError(e)) => format!("err:decode:{:?}", e),
+					},
+					String::new(),
+				)
 			},
 			"P" => {
 				let cap = if n(2) < 0 { None } else { Some(n(2) as u64) };
@@ -556,6 +809,6 @@ fn main() {
 			},
 			_ => ("BADCMD".to_string(), String::new()),
 		};
-		format!("{} # {} # {}", res, oracle, s.dump(&pool))
+		format!("{} # {} stored_bad={} # {}", res, oracle, s.stored_bad(&pool), s.dump(&pool))
 	});
 }
